@@ -292,7 +292,9 @@ def textbook(spec, cond_val=None, Y=None):
 
 
 def tol_solve(cond, scale):
-    return 1e3 * cond * EPS * scale + 1e-12 * scale
+    """solver error (1e3*cond*eps) + evaluation noise of the independently computed covariances (1e-9,
+    DESIGN 3.4: values through transcendental functions), both relative to the accumulated magnitudes"""
+    return (1e3 * cond * EPS + 1e-9) * scale + 1e-300
 
 
 def post_tol(nz, y, t):
@@ -684,3 +686,252 @@ TRUSTED = [
     "theorems at R ignore floating-point rounding; the same Gallina definitions are executed at OCaml floats in the correspondence",
     "harness (case generation, calls into gstools, comparison) and numpy.linalg.solve / cond used by the probes",
 ]
+
+
+# --------------------------------------------------------------------------- probes on the implementation
+
+def _viol(ctx, stage, what, spec, key, **kw):
+    case = dict(spec=jsonable(spec))
+    for k, v in kw.items():
+        case[k] = v.tolist() if hasattr(v, "tolist") else v
+    ctx.violation("probe: " + stage, what, case, key=key)
+
+
+def impl_results(spec, **kw):
+    kr = build_krige(spec, Capture("pinv"), **kw)
+    f, v = call_krige(kr, spec)
+    fr, _ = call_krige(kr, spec, post_process=False)
+    return kr, np.asarray(f, dtype=float), np.asarray(v, dtype=float), np.asarray(fr, dtype=float)
+
+
+def probe_textbook(ctx, spec, stats):
+    """implementation vs numpy.linalg.solve of the textbook system (independent covariance evaluation)"""
+    tb = textbook(spec)
+    if tb.get("singular") or tb["cond"] > COND_MAX:
+        stats["excluded_singular"] = stats.get("excluded_singular", 0) + 1
+        return None
+    kr, f, v, fr = impl_results(spec)
+    shape = f.shape
+    f, v, fr = f.reshape(-1), v.reshape(-1), fr.reshape(-1)
+    tf = tol_solve(tb["cond"], tb["sfield"])
+    tv = tol_solve(tb["cond"], tb["serr"])
+    m = tb["Y"].shape[1]
+    if f.shape != (m,):
+        _viol(ctx, "textbook", "result has wrong size", spec, "textbook:shape", shape=list(shape))
+        return tb
+    if not np.all(np.abs(fr - tb["raw"]) <= tf):
+        _viol(ctx, "textbook", "raw kriging estimate differs from the solution of the kriging system (max dev %.3g, tol %.3g, cond %.3g)"
+              % (np.abs(fr - tb["raw"]).max(), tf.max(), tb["cond"]), spec, "textbook:estimate", impl=fr, expected=tb["raw"], tol=tf)
+    if not np.all(np.abs(v - tb["var"]) <= tv):
+        _viol(ctx, "textbook", "kriging variance differs from sill - k^T lambda of the kriging system (max dev %.3g)"
+              % np.abs(v - tb["var"]).max(), spec, "textbook:variance", impl=v, expected=tb["var"], tol=tv)
+    mean_t = fval(tb["mean"], tb["Y"], m)
+    inr = in_range(tb["nz"], tb["raw"] + mean_t) & in_range(tb["nz"], fr + mean_t)
+    tp = post_tol(tb["nz"], tb["raw"] + mean_t, tf) + 1e-9 * np.abs(tb["field"])
+    with np.errstate(all="ignore"):
+        dev = np.abs(f - tb["field"])
+    if not np.all((dev <= tp) | ~inr):
+        _viol(ctx, "textbook", "post-processed field differs from denormalize(estimate + mean) + trend", spec,
+              "textbook:field", impl=f, expected=tb["field"], tol=tp)
+    return tb
+
+
+def probe_metamorphic(ctx, rng, spec, stats, tb):
+    """linearity, constants, drifts, chunking, permutations, mesh type, NaN conditions"""
+    v = spec["variant"]
+    X = np.asarray(spec["cond_pos"], dtype=float)
+    n = X.shape[1]
+    Y = expand_pos(spec)
+    m = Y.shape[1]
+    kr, f, var, fr = impl_results(spec)
+    shape = f.shape
+    sing = tb is None or tb.get("singular") or tb["cond"] > COND_MAX
+    # ---- chunk sizes: identical results
+    for cs in (1, 2, 3, m, m + 7, None):
+        s2 = dict(spec, chunk_size=cs)
+        _, f2, v2, _ = impl_results(s2)
+        ctx.count(None, hist=dict(probe="chunk"))
+        if not (C.bit_equal(f, f2) and C.bit_equal(var, v2)):
+            _viol(ctx, "chunk", "result depends on chunk_size=%s" % cs, s2, "chunk", a=f, b=f2)
+            break
+    # ---- mesh type: structured = expanded point list
+    if spec.get("mesh_type") == "structured":
+        s2 = dict(spec, pos=[list(map(float, r)) for r in Y], mesh_type="unstructured")
+        _, f2, v2, _ = impl_results(s2)
+        ctx.count(None, hist=dict(probe="mesh"))
+        if not (C.bit_equal(f.reshape(-1), f2) and C.bit_equal(var.reshape(-1), v2)
+                and list(f.shape) == [len(a) for a in spec["pos"]]):
+            _viol(ctx, "mesh", "structured result is not the reshaped result of the expanded point list", spec, "mesh",
+                  structured=f, unstructured=f2)
+    # ---- permutation of the target points (unstructured)
+    if spec.get("mesh_type") != "structured" and m > 1:
+        perm = rng.permutation(m)
+        s2 = dict(spec, pos=[list(map(float, r[perm])) for r in Y])
+        _, f2, v2, _ = impl_results(s2)
+        ctx.count(None, hist=dict(probe="target_perm"))
+        if not (C.close(f[perm], f2, rtol=1e-12, atol=1e-13) and C.close(var[perm], v2, rtol=1e-12, atol=1e-13 * (1 + kr.model.sill))):
+            _viol(ctx, "target_perm", "permuting the target points does not permute the result", s2, "target_perm",
+                  perm=perm, a=f[perm], b=f2)
+    if sing:
+        return
+    tf = tol_solve(tb["cond"], tb["sfield"])
+    tv = tol_solve(tb["cond"], tb["serr"])
+    nz = tb["nz"]
+    mean_t = fval(tb["mean"], tb["Y"], m)
+    # ---- permutation of the conditioning points
+    perm = rng.permutation(n)
+    s2 = dict(spec, cond_pos=[list(map(float, r[perm])) for r in X], cond_val=[spec["cond_val"][i] for i in perm])
+    if isinstance(spec.get("cond_err"), list):
+        s2["cond_err"] = [spec["cond_err"][i] for i in perm]
+    _, f2, v2, fr2 = impl_results(s2)
+    ctx.count(None, hist=dict(probe="cond_perm"))
+    if not (np.all(np.abs(fr2.reshape(-1) - fr.reshape(-1)) <= 2 * tf) and np.all(np.abs(v2.reshape(-1) - var.reshape(-1)) <= 2 * tv)):
+        _viol(ctx, "cond_perm", "result depends on the order of the conditioning points (max dev %.3g, tol %.3g)" % (
+            np.abs(fr2.reshape(-1) - fr.reshape(-1)).max(), 2 * tf.max()), s2, "cond_perm", perm=perm, a=fr, b=fr2)
+    # ---- NaN conditioning values are ignored
+    if n > tb["N"] - n + 3 and not isinstance(spec.get("cond_err"), list):
+        drop = int(rng.integers(n))
+        cv = list(spec["cond_val"])
+        cv[drop] = float("nan")
+        keep = [i for i in range(n) if i != drop]
+        s_nan = dict(spec, cond_val=cv)
+        s_rm = dict(spec, cond_pos=[list(map(float, r[keep])) for r in X], cond_val=[spec["cond_val"][i] for i in keep])
+        try:
+            _, fa, va, _ = impl_results(s_nan)
+            _, fb, vb, _ = impl_results(s_rm)
+            ctx.count(None, hist=dict(probe="nan_cond"))
+            if not (C.bit_equal(fa, fb) and C.bit_equal(va, vb)):
+                _viol(ctx, "nan_cond", "a NaN conditioning value is not ignored", s_nan, "nan_cond", with_nan=fa, removed=fb)
+        except Exception as e:  # noqa
+            _viol(ctx, "nan_cond", "exception with a NaN conditioning value: %r" % (e,), s_nan, "nan_cond:exc")
+    # ---- linearity in the prepared data (no normalizer: prepared = val - trend - mean)
+    if nz is None:
+        a, b = float(np.round(rng.normal(), 3)), float(np.round(rng.normal(), 3))
+        off = fval(tb["trend"], tb["X"], n) + fval(tb["mean"], tb["X"], n)
+        v1 = np.asarray(spec["cond_val"], dtype=float)
+        v2_ = rng.normal(size=n) + off
+        v3 = a * v1 + b * v2_ + (1 - a - b) * off
+        r = []
+        for vv in (v1, v2_, v3):
+            k_, _, _, frx = impl_results(spec, cond_val=vv)
+            r.append((frx.reshape(-1), np.abs(np.asarray(k_._krige_cond))))
+        Ki = np.abs(np.asarray(kr._krige_mat))
+        iso_pos, _ = kr.pre_pos([np.asarray(a_, dtype=float) for a_ in spec["pos"]], spec.get("mesh_type", "unstructured"))
+        kk = np.abs(kr._get_krige_vecs(iso_pos, (0, m), kr._pre_ext_drift(m, ext_drift_at(spec, Y) if v == "ExtDrift" else None), False))
+        sc = (abs(a) * r[0][1] + abs(b) * r[1][1] + r[2][1]) @ (Ki @ kk)
+        ctx.count(None, hist=dict(probe="linearity"))
+        dev = np.abs(r[2][0] - (a * r[0][0] + b * r[1][0]))
+        if not np.all(dev <= 1e-9 * sc + 1e-300):
+            _viol(ctx, "linearity", "estimate is not linear in the prepared data (max dev %.3g)" % dev.max(), spec, "linearity",
+                  a=a, b=b, v2=v2_, dev=dev, scale=sc)
+    # ---- unbiased variants reproduce constants (through trend and normalizer) and their drifts
+    lam1 = np.abs(tb["lam"][:n]).sum(axis=0)
+    if v in ("Ordinary", "Universal", "ExtDrift"):
+        c = float(np.round(rng.uniform(0.5, 3.0), 3))
+        vals = c + fval(tb["trend"], tb["X"], n)
+        _, fc, vc, _ = impl_results(spec, cond_val=vals)
+        y = float(norm_fwd(nz, np.array([c]))[0])
+        t0 = 1e3 * tb["cond"] * EPS * (abs(y) * (1 + lam1)) + 1e-12
+        exp = c + fval(tb["trend"], tb["Y"], m)
+        tp = post_tol(nz, np.full(m, y), t0) + 1e-9 * np.abs(exp)
+        ctx.count(None, hist=dict(probe="constants"))
+        if not np.all(np.abs(fc.reshape(-1) - exp) <= tp):
+            _viol(ctx, "constants", "constant data %g are not reproduced by the unbiased estimator (max dev %.3g)" % (
+                c, np.abs(fc.reshape(-1) - exp).max()), dict(spec, cond_val=list(map(float, vals))), "constants", impl=fc, expected=exp)
+    if v in ("Universal", "ExtDrift") and nz is None:
+        u = 1
+        for l in range(tb["N"] - n - u):
+            fl = tb["K"][n + u + l, :n]
+            gl = tb["k"][n + u + l]
+            vals = fl + fval(tb["trend"], tb["X"], n)
+            _, fd, _, _ = impl_results(spec, cond_val=vals)
+            exp = gl + fval(tb["trend"], tb["Y"], m)
+            t0 = 1e3 * tb["cond"] * EPS * (np.abs(fl).max() * (1 + lam1) + np.abs(gl)) + 1e-12
+            ctx.count(None, hist=dict(probe="drifts"))
+            if not np.all(np.abs(fd.reshape(-1) - exp) <= t0 + 1e-9 * np.abs(exp)):
+                _viol(ctx, "drifts", "data equal to drift %d are not reproduced (max dev %.3g)" % (l, np.abs(fd.reshape(-1) - exp).max()),
+                      dict(spec, cond_val=list(map(float, vals))), "drifts", impl=fd, expected=exp)
+
+
+def probe_exact_at_data(ctx, spec, stats):
+    """C06: kriging at cond_pos with zero measurement error returns the data and zero variance"""
+    s2 = dict(spec, pos=spec["cond_pos"], mesh_type="unstructured", chunk_size=spec.get("chunk_size"))
+    tb = textbook(s2)
+    if tb.get("singular") or tb["cond"] > COND_MAX:
+        stats["excluded_singular"] = stats.get("excluded_singular", 0) + 1
+        return
+    kr, f, v, fr = impl_results(s2)
+    val = np.asarray(spec["cond_val"], dtype=float)
+    n = len(val)
+    # error of lambda = Kinv K e_m is of order cond*eps; it is multiplied by the data / the rhs
+    d = np.abs(tb["d"]).max() + 1e-300
+    t0 = np.full(n, 1e3 * tb["cond"] * EPS * d * tb["N"] + 1e-12)
+    mean_c = fval(tb["mean"], tb["X"], n)
+    tp = post_tol(tb["nz"], tb["d"][:n] + mean_c, t0) + 1e-9 * np.abs(val)
+    sill = tb["sill"]
+    tv = 1e3 * tb["cond"] * EPS * np.abs(tb["K"]).max() * tb["N"] + 1e-12 * sill
+    dev = np.abs(f - val)
+    if not np.all(dev <= tp):
+        _viol(ctx, "exact_at_data", "kriged field at the conditioning points differs from the conditioning values "
+              "(max dev %.3g, tol %.3g, cond %.3g)" % (dev.max(), tp.max(), tb["cond"]), s2, "exact:value", impl=f, expected=val, tol=tp)
+    if not np.all(np.abs(v) <= tv):
+        _viol(ctx, "exact_at_data", "kriging variance at the conditioning points is not zero (max %.3g, tol %.3g)" % (np.abs(v).max(), tv),
+              s2, "exact:variance", impl=v)
+
+
+def probe_var_bounds(ctx, spec, stats):
+    kr, f, v, fr = impl_results(spec)
+    sill = float(kr.model.sill)
+    if not np.all(v >= 0):
+        _viol(ctx, "variance_nonneg", "negative kriging variance", spec, "var:negative", impl=v)
+    if spec["variant"] in ("Simple", "Detrended"):
+        tb = textbook(spec)
+        if tb.get("singular") or tb["cond"] > COND_MAX:
+            stats["excluded_singular"] = stats.get("excluded_singular", 0) + 1
+            return
+        tv = tol_solve(tb["cond"], tb["serr"])
+        if not np.all(v.reshape(-1) <= sill + tv):
+            _viol(ctx, "simple_variance_le_sill", "simple kriging variance exceeds the sill (max excess %.3g)" % (v.max() - sill),
+                  spec, "var:above_sill", impl=v, sill=sill)
+
+
+def probe_duplicates(ctx, rng, spec, stats):
+    """C06: a duplicated conditioning location solved with the pseudo-inverse acts as ONE point carrying the mean"""
+    X = np.asarray(spec["cond_pos"], dtype=float)
+    val = np.asarray(spec["cond_val"], dtype=float)
+    n = len(val)
+    a = int(rng.integers(n))
+    other = float(val[a] + np.round(rng.normal(), 3)) if spec.get("normalizer") is None else float(val[a] * 1.3)
+    base = dict(spec, cond_err="nugget", exact=False, pseudo_inv=True)
+    base["model"] = dict(spec["model"], kw=dict(spec["model"]["kw"], nugget=0.0))
+    if base.get("pseudo_inv_type") == "callable":
+        base["pseudo_inv_type"] = "pinv"
+    Xd = np.concatenate([X, X[:, a:a + 1]], axis=1)
+    s_dup = dict(base, cond_pos=[list(map(float, r)) for r in Xd], cond_val=list(map(float, val)) + [other])
+    tbm = textbook(base)   # for tolerances (merged system has the same matrix as the original one)
+    if tbm.get("singular") or tbm["cond"] > 1e8:
+        stats["excluded_singular"] = stats.get("excluded_singular", 0) + 1
+        return
+    # merged point carries the mean of the PREPARED values (identical to the mean of the values without normalizer)
+    nz = tbm["nz"]
+    tr_a = fval(tbm["trend"], X[:, a:a + 1], 1)[0]
+    pa, pb = norm_fwd(nz, np.array([val[a] - tr_a]))[0], norm_fwd(nz, np.array([other - tr_a]))[0]
+    merged_val = float(norm_bwd(nz, np.array([(pa + pb) / 2]))[0] + tr_a)
+    vm = val.copy()
+    vm[a] = merged_val
+    s_mrg = dict(base, cond_val=list(map(float, vm)))
+    try:
+        _, fd, vd, frd = impl_results(s_dup)
+    except Exception as e:  # noqa
+        _viol(ctx, "duplicates", "exception with duplicated conditioning points: %r" % (e,), s_dup, "dup:exc")
+        return
+    _, fm, vmr, frm = impl_results(s_mrg)
+    tbm2 = textbook(s_mrg)
+    tf = 10 * tol_solve(tbm["cond"], tbm2["sfield"] + np.abs(tbm["lam"][a]) * (abs(pa) + abs(pb)))
+    tv = 10 * tol_solve(tbm["cond"], tbm2["serr"])
+    if not np.all(np.abs(frd.reshape(-1) - frm.reshape(-1)) <= tf):
+        _viol(ctx, "duplicates", "duplicated point does not act as one point carrying the mean (max dev %.3g, tol %.3g)" % (
+            np.abs(frd.reshape(-1) - frm.reshape(-1)).max(), tf.max()), s_dup, "dup:mean", dup=frd, merged=frm, tol=tf)
+    if not np.all(np.abs(vd.reshape(-1) - vmr.reshape(-1)) <= tv):
+        _viol(ctx, "duplicates", "variance with a duplicated point differs from the merged system (max dev %.3g)" % (
+            np.abs(vd.reshape(-1) - vmr.reshape(-1)).max()), s_dup, "dup:variance", dup=vd, merged=vmr)
